@@ -6,11 +6,36 @@ import os
 VERIF = os.path.dirname(os.path.dirname(os.path.abspath(__file__)))
 
 CHECKS = {
+    'C06': dict(
+        technique='metamorphic monitor over injected schedules: every reachable processing order (exhaustive for small projects) is realised by permuting System.unprocessed_modules, the realised order is recorded by wrapping processModule, canonical dumps are compared; renamed twins check the injection against the file system; violations attributed by counterfactual re-runs with one known mechanism repaired',
+        text='Exploration over schedules. For each generated project all reachable orders (own __init__ first, children and roots in any order; up to 12/40, else sampled) are executed and the dumps of System.allobjects (type, kind, docstring, parent, bases, linearisation, subclasses, __all__, re-export location) compared; projects in which the analysis ran into an import cycle (observed at run time: a module handed out while PROCESSING) are compared on the class hierarchy only, classes identified by definition site. The same project printed under module names with a different alphabetical order is analysed without injection and compared modulo renaming. Evidence counts distinct realised schedules.',
+        note='A disagreement is credited to a known finding only if (a) re-running the two orders with that single mechanism repaired by a wrapper makes them agree, or (b) the run recorded that mechanism\'s witness for the differing class; anything else is a new violation.',
+        ref='4/C06'),
+    'C07': dict(
+        technique='ground-truth monitor: expected location of every re-exported object comes from the generator; registry, consumer name resolution, base classes, annotations and docstring cross-references (old and new qualified name) are checked under every reachable processing order; counterfactual attribution',
+        text='Exploration. Generated packages with one re-exporter per object (package or sibling module; plain, renamed, star), negative controls listed in the defining module\'s own __all__, and consumer modules that reach the object from the defining module, the re-exporting module, a module alias or both are analysed in every reachable order (<=6/24, else sampled); the object and its members must be registered exactly at the exported name, and every consumer reference must lead to that one object.',
+        note='Only the single-re-exporter shape of the statement is generated; the stale-import mechanism is credited only when the problem vanishes in a re-run of the same order with that mechanism alone repaired.',
+        ref='4/C07'),
+    'C11': dict(
+        technique='offline closed-world link check over the complete output directory of the real driver (every href/src, anchor, all-documents url and search reference), joined with the live model and an independent page-layout reference',
+        text='Exploration. Generated projects (inheritance, inherited docstrings with cross-references, re-exports, duplicates, privacy rules, nested classes, non-ASCII and root-named modules, several roots) under varying themes, sidebar depths, member orders and docformats, plus real packages, are rendered by the real driver; the crawler resolves ~170k links per quick run against the files written and the id/name anchors they contain, checks the search records, and checks that every visible module/class has its page and every visible member its anchor.',
+        note='External, source and intersphinx links are ignored; a dead link is attributed to a known mechanism by what its target is in the live model (superseded duplicate, displaced module).',
+        ref='4/C11'),
+    'C12': dict(
+        technique='offline closed-world trace search over the output directory for every hidden object (files, anchors, link targets, listing entries, search records, inventory lines) and marker check for every listing entry of private objects, joined with the live model\'s privacy',
+        text='Exploration. Generated projects are rendered under two (quick) to four (thorough) generated --privacy rule lists each (exact names and patterns, all three levels, in varying order), covering hidden bases of visible classes, hidden modules that are imported from, hidden members that are overridden or cross-referenced and private objects in every listing; the whole output is searched for traces of each hidden object and each private listing entry is checked for the marker the public/private toggle acts on.',
+        note='Only links, anchors, entries, records and files count as traces (not textual mentions); the judged listings are those the statement names (member tables, member details, sidebar, module index, search documents).',
+        ref='4/C12'),
     'C13': dict(
         technique='reference-model monitor: qnmatch and System.privacyClass compared online with a regex-free matcher and a 12-line precedence model, exhaustive over a bounded pattern/name space',
         text='Exploration with an independent executable model as oracle. Every (pattern, name) pair up to the length bound over the quoting-relevant alphabet is executed against the real qnmatch and compared with a reference matcher written from the manual; rule lists are fed through the real option parser into a live System and every object\'s privacyClass / isVisible is compared with the reference precedence. Held on the executions run (bounded space completed), not a proof.',
         note='Trusts the reference matcher (vf/ref/glob_ref.py) as a reading of the manual; forms the manual does not define are executed for totality only.',
         ref='4/C13'),
+    'C02': dict(
+        technique='invariant monitors at hooks: icontract postconditions (with OLD snapshots) attached from the harness to System.addObject / handleDuplicate / Documentable.reparent check the touched subtree after every registry mutation; whole-system invariants R1-R9 at quiescence; processing orders injected at the boundary',
+        text='Exploration. Generated projects whose analysis history mixes re-export moves, duplicate definitions (also inside classes and of moved names), a class re-exported under a submodule name, import cycles, nested classes, field attributes and zope.interface declarations are analysed under several reachable processing orders, and real packages are analysed; the monitors evaluate the registry/tree invariants of the statement where the state becomes observable (at return of each mutation) and on the whole system after process().',
+        note='Transient states inside one mutation are not judged; superseded duplicates are exempt from the entry-in-parent clause as the statement says; R7/R8 only for systems post-processed once. Two defects are listed as known findings by mechanism.',
+        ref='4/C02'),
     'C03': dict(
         technique='reference-model monitor: every module and class namespace pydoctor builds is compared name by name with vars()/inspect of the same generated package imported by CPython in a fresh subprocess',
         text='Exploration with CPython as reference. Generated importable packages in the agreed subset (taken if/try/with/for/while bodies including __name__ comparisons other than the __main__ guard, decorators, old-style wrapping, property setters, attribute docstrings, nested classes, many docstring layouts, with function-local and __main__-guarded definitions as negative controls) are imported by the interpreter and analysed by pydoctor; missing, invented or duplicated names, kinds, coroutine flags, cleaned docstrings and inferred literal types are compared for every name.',
